@@ -1042,7 +1042,15 @@ func r05_6(c *RC) {
 		for k := int64(0); k < 16; k++ {
 			f := &Folder{P: p, Assume: assumeProtocol(k, map[string]bool{"isClient": isClient}), Stop: stop}
 			outs := f.Eval(in, []cval{{nonNil: true}, {nonNil: true}})
-			acc, _ := acceptsNil(outs)
+			// "passes the whitelist" = evaluation gets past it (reaches the
+			// first look at seg.block); returning before that - with an
+			// error (stream) or nil (datagram dropped) - is a refusal.
+			acc := false
+			for _, o := range outs {
+				if o.Stopped != nil {
+					acc = true
+				}
+			}
 			name := byVal[k]
 			if name == "" {
 				name = "undefined"
